@@ -968,6 +968,16 @@ def generate(desc=None):
     o.append("  db_part := fun c => match c with\n%s\n  end;" % disp("particles"))
     o.append("  db_islist := fun a => match a with\n%s\n  | _ => false\n  end |}." % "\n".join(
         "  | %d => %s" % (k, "true" if il else "false") for k, il in enumerate(d["islist"])))
+    names = ["gen_db", "db_nparams", "db_atoms", "db_guard", "db_mat", "db_nw", "db_dim", "db_herm", "db_inv",
+             "db_part", "db_islist"]
+    for nm in order:
+        fields = ["nparams", "num_wires", "particles"]
+        if not d["classes"][nm].get("target_only"):
+            fields += ["atoms", "guard", "bmx", "dim", "is_hermitian", "inverse"]
+        names += ["%s_%s" % (nm, f) for f in fields]
+    o.append("(* unfolds everything generated except the closed-form templates *)")
+    o.append("Ltac gen_unfold := cbv [%s]." % " ".join(names))
+    o.append("Ltac gen_unfold_in H := cbv [%s] in H." % " ".join(names))
     return "\n".join(o) + "\n"
 
 
